@@ -37,6 +37,10 @@ const FILTERS: &[&str] = &[
     r#"str_o != "x" xor ipa_o == 1.2.3.4"#,
     r#"any(keepeven1(l_num_m[*])[*] > 0)"#,
     r#"tally1((l_tru_m and l_tru_o)) >= 1"#,
+    // byte-oriented matching: one `.` is one byte, whatever the bytes spell
+    r#"http.host matches "^x.y$""#,
+    r#"http.host matches "^x..y$""#,
+    r#"http.host matches "^x[^a]y$" or http.host matches "^x\W+y$""#,
     // large literal sets (whatever is prepared lazily for them is prepared on first use)
     r#"num_m in {1 5..10 100..2000 3000..3007 4000..4007 5000..5007 6000..6007 7000..7007 8000..8007 9000..9007 10000..10007 11000..11007 12000..12007 13000..13007 14000..14007 15000..15007 16000..16007 17000..17007 18000..18007 19000..19007 20000..20007 21000..21007 22000..22007 23000..23007 24000..24007 25000..25007 26000..26007 27000..27007 28000..28007 29000..29007 30000..30007 31000..31007 32000..32007 33000..33007 34000..34007 35000..35007 36000..36007 37000..37007 38000..38007 39000..39007 40000..40007 4294967296..4294967297 -9223372036854775808..-9223372036854775800 255 7 2 0 -1 -256}"#,
     r#"ipa_m in {10.0.0.0/8 172.16.0.0/12 192.168.0.0/16 100.64.0.0/10 169.254.0.0/16 198.18.0.0/15 203.0.113.0/24 192.0.2.0/24 198.51.100.0/24 224.0.0.0/4 240.0.0.0/4 127.0.0.0/8 1.2.3.4 8.8.8.8 ::1 ::ffff:0:0/96 2001:db8::/32 fe80::/10 fc00::/7 ff00::/8 64:ff9b::/96 2002::/16 2001::/32 ::2..::ff}"#,
@@ -77,7 +81,12 @@ fn contexts(eng: &Eng, seed: u64, n: usize) -> Vec<(Ctx, ListState)> {
             // pairs of contexts share identical content
             let m = (k / 2) % 2 == 0;
             vals[str_m] = Some(RV::Bytes(long_value(m, k / 4)));
-            vals[host] = Some(RV::Bytes(if k % 3 == 0 { b"ababc".to_vec() } else { long_value(!m, k / 4) }));
+            vals[host] = Some(RV::Bytes(match k % 8 {
+                1 => b"x\xc3\xa9y".to_vec(),
+                5 => b"x\xffy".to_vec(),
+                _ if k % 3 == 0 => b"ababc".to_vec(),
+                _ => long_value(!m, k / 4),
+            }));
             let lists = gen_lists(&mut r, env);
             (vals, lists)
         })
